@@ -1,9 +1,23 @@
 package clickhouse_transpiler
 
 import (
+	"fmt"
 	"github.com/metrico/qryn/reader/logql/logql_transpiler_v2/shared"
 	sql "github.com/metrico/qryn/reader/utils/sql_select"
 )
+
+// maxTimestampCol is the recency column that && / || add to the statement of an operand.
+// The rows of a selector carry timestamp_ns; the rows of a nested && / || carry max_timestamp_ns
+// (qualified by the sub-query alias: the column added here has the same name)
+func maxTimestampCol(op shared.SQLRequestPlanner) sql.SQLObject {
+	switch p := op.(type) {
+	case *ComplexAndPlanner:
+		return sql.NewSimpleCol(fmt.Sprintf("max(%sa.max_timestamp_ns)", p.Prefix), "max_timestamp_ns")
+	case *ComplexOrPlanner:
+		return sql.NewSimpleCol(fmt.Sprintf("max(%sa.max_timestamp_ns)", p.Prefix), "max_timestamp_ns")
+	}
+	return sql.NewSimpleCol("max(timestamp_ns)", "max_timestamp_ns")
+}
 
 func getComparisonFn(op string) (func(left sql.SQLObject, right sql.SQLObject) *sql.LogicalOp, error) {
 	switch op {
